@@ -210,6 +210,25 @@ func doCheck(id, tier string) int {
 					capNotes = append(capNotes, fmt.Sprintf("%s run %d: out-of-memory under the cap did not recur when the run was executed alone (accumulated garbage of earlier within-limit decodes): not counted", a.run.label, f.Idx))
 					continue
 				}
+			} else if k.kind == "abort" || k.kind == "stall" || (k.kind == "hang" && wallClockHang[a.run.spec.name]) {
+				// A verdict that rests on the wall clock (no progress for N seconds) or on the worker
+				// process having died says something about the library only if the run does it again on
+				// its own: on a loaded or memory-starved machine the kernel kills a worker, or a
+				// legitimate call takes a minute, and neither is the library's doing. A genuine crash
+				// or endless loop is a function of the tape and recurs. (Step-bound hangs and
+				// deadlocks of the scheduler engines are decided in simulated steps and need no retry.)
+				recurred := false
+				for try := 0; try < len(fs) && try < 2 && !recurred; try++ {
+					tc := *a.cfg
+					tc.trace = true
+					if o := runOnce(&tc, fs[try].Idx, "", 400*time.Second); hasKind(o, k.kind) {
+						recurred = true
+					}
+				}
+				if !recurred {
+					capNotes = append(capNotes, fmt.Sprintf("%s run %d: %s (%s) did not recur when the run was executed alone in a fresh process (machine load or memory pressure at the time): not counted", a.run.label, f.Idx, k.kind, k.site))
+					continue
+				}
 			}
 			violations += len(fs)
 			reported++
@@ -406,6 +425,19 @@ func classesOf(o *onceOut) []classKey {
 		ks = append(ks, classKey{o.crash.V.Kind, o.crash.V.Site})
 	}
 	return ks
+}
+
+// wallClockHang: engines whose "hang" verdict is a wall-clock watchdog (there is no yield inside a
+// decode or an encode); the scheduler engines decide hangs in simulated steps.
+var wallClockHang = map[string]bool{"c15enum": true, "c15seq": true, "c09benign": true, "c09hard": true, "c03": true}
+
+func hasKind(o *onceOut, kind string) bool {
+	for _, c := range classesOf(o) {
+		if c.kind == kind {
+			return true
+		}
+	}
+	return false
 }
 
 func hasClass(o *onceOut, k classKey) bool {
